@@ -202,6 +202,13 @@ def run(ctx):
     maxlen = ctx.budget(12, 40)
     for si in range(nseq):
         gd = P.gen_invertible_graph(rng, 150)
+        if gd["kind"] == "matrix" and gd["modulo"] > 0 and rng.random() < 0.5:
+            # a central state given with entries outside [0, m) (e.g. -1 for m - 1): a legitimate way to write it; the object must keep it as given
+            m_ = gd["modulo"]
+            unred = [v + rng.choice([0, 0, m_, -m_]) for v in gd["central"]]
+            if unred != list(gd["central"]) and max(abs(v) for v in unred) < 2**62 and G.ref_bfs(dict(gd, central=unred), [unred], 400) is not None:
+                gd = dict(gd, central=unred)
+                ctx.count("unreduced_central_states")
         cfgd = G.gen_config(rng, gd)
         layers, dist = G.ref_bfs(gd, [gd["central"]])
         ic = G.is_inverse_closed_ref(gd)
